@@ -154,7 +154,9 @@ pub fn run(out: &mut Out, seed: u64, tier: &str) {
     // a sizeable force. One slightly stretched diatomic inside a wide lattice of 150-650 noble-gas atoms, the stretch found by
     // bisection so that sqrt(mean |g_i|) lands at 0.08-0.095: such a start must come back bit for bit
     let mut n_large_conv = 0usize;
-    let sizes: Vec<(usize, usize, usize)> = if tier == "thorough" { vec![(5, 5, 6), (7, 7, 6), (9, 9, 8), (4, 4, 3)] } else { vec![(7, 7, 6), (4, 4, 3)] };
+    let mut sizes: Vec<(usize, usize, usize)> = if tier == "thorough" { vec![(5, 5, 6), (7, 7, 6), (9, 9, 8), (4, 4, 3)] } else { vec![(7, 7, 6), (4, 4, 3)] };
+    // sizes the changed source lines mention (n x 1 x 1 lattices of that many atoms)
+    for n in hints().atom_counts(30, 1200).into_iter().take(3) { sizes.insert(0, (n - 2, 1, 1)); }
     for (si, (na, nb, nc)) in sizes.iter().enumerate() {
         for (zi, zj) in [(1usize, 1usize), (6, 8), (17, 17)] {
             if tier != "thorough" && (si + zi) % 2 == 1 { continue; }
